@@ -12,3 +12,27 @@ Import ListNotations.
 
 Definition c06_run : job_case -> job_obs := job_run.
 Definition c06_obs_eqb : job_obs -> job_obs -> bool := job_obs_eqb.
+
+(* The replacement design itself: Model/Reroll.v `gen_vector_desc` (which keys gen_vector reads for each
+   parameter) run in exact rationals on the draws of random() that the implementation consumed, compared with
+   the vector gen_vector returned (regime R3: per-coordinate tolerance computed by the harness, a few ulp; a
+   coordinate whose quotient is within rounding error of a rounding tie, or whose value is within rounding
+   error of an integer before int(), gets one step / one unit and is counted).
+   Result: 0 = agrees, 1 = number of draws differs from the number of parameters, 2 = some coordinate differs *)
+From Coq Require Import QArith Qabs.
+From Artap Require Import Model.Reroll.
+
+Record reroll_case := { r_params : list pdesc; r_draws : list Q; r_impl : list Q; r_tol : list Q }.
+
+Fixpoint qclose3 (m i t : list Q) : bool :=
+  match m, i, t with
+  | [], [], [] => true
+  | x :: m', y :: i', e :: t' => Qle_bool (Qabs (x - y)) e && qclose3 m' i' t'
+  | _, _, _ => false
+  end.
+
+Definition c06_reroll_run (c : reroll_case) : nat :=
+  match gen_vector_desc (r_params c) (r_draws c) with
+  | None => 1%nat
+  | Some v => if qclose3 v (r_impl c) (r_tol c) then 0%nat else 2%nat
+  end.
